@@ -627,7 +627,9 @@ class BPSK(Modulator):
         # noinspection PyTypeChecker
         if np.any(inputData > 1):
             raise ValueError("Input data can only contains '0's and '1's")
-        return 1 - 2 * inputData
+        # Signed arithmetic: with an unsigned index array `1 - 2 * inputData`
+        # would wrap around (bit 1 -> 255 for uint8) instead of giving -1
+        return 1 - 2 * np.asarray(inputData, dtype=int)
 
     def demodulate(self, receivedData: np.ndarray) -> np.ndarray:
         """
